@@ -176,7 +176,13 @@ class StepQueue:
 
         class Q(FairMultiFIFOQueue):
             def get(self, timeout=None):
-                return super().get(timeout=0.001)
+                # never wait for work that is not there; but a 1 ms budget can run out before the first look at the queue
+                # when the machine is loaded (a spurious None would end serial_io with tasks still queued): look again
+                for budget in (0.001, 0.02, 0.2):
+                    r = super().get(timeout=budget)
+                    if r is not None or self.qsize == 0 or self.inprogress_size > 0:
+                        return r
+                return super().get(timeout=1.0)
 
         return Q()
 
